@@ -575,6 +575,7 @@ class Registry:
                         env[p] = Opaque(p)
             if c.fq == 'beanquery.query_compile:EvalNode':
                 return env.get('dtype')
+            self._init_prelude(init, env, c.module)
             nxt = None
             for st in ast.walk(init.node):
                 if (isinstance(st, ast.Call) and isinstance(st.func, ast.Attribute) and st.func.attr == '__init__'
@@ -593,6 +594,33 @@ class Registry:
                 return Opaque('no super().__init__')
             frame_args = nxt
         return Opaque('no EvalNode.__init__ reached')
+
+    def _init_prelude(self, init, env, module):
+        """Local rebinding before the super().__init__ call of a constructor (`if not dtype: dtype = operands[0].dtype`; a default
+        moved into a local): straight-line assignments to names and `if` statements whose test is decided by the bound values."""
+        def is_super_call(st):
+            return any(isinstance(n, ast.Call) and isinstance(n.func, ast.Attribute) and n.func.attr == '__init__'
+                       and isinstance(n.func.value, ast.Call) and isinstance(n.func.value.func, ast.Name) and n.func.value.func.id == 'super'
+                       for n in ast.walk(st))
+
+        def run(body):
+            for st in body:
+                if is_super_call(st):
+                    return False
+                if isinstance(st, ast.Assign) and len(st.targets) == 1 and isinstance(st.targets[0], ast.Name):
+                    env[st.targets[0].id] = self.ev(st.value, env, module, init)
+                elif isinstance(st, ast.If):
+                    t = self.truth(st.test, env, module, init)
+                    if t is None:
+                        return False
+                    if not run(st.body if t else st.orelse):
+                        return False
+                elif isinstance(st, ast.Expr) and isinstance(st.value, ast.Constant):
+                    continue
+                else:
+                    return False
+            return True
+        run(init.node.body)
 
     def as_tok(self, v):
         if isinstance(v, Sym):
@@ -1017,16 +1045,57 @@ class Registry:
                     c = P.resolve_class(src, e)
                     if isinstance(c, ClassInfo):
                         first.append(c.fq)
-            # Table.__init_subclass__ appends every subclass of sources.beancount.Table
-            auto = []
-            base = src.classes.get('Table')
-            if base is not None and '__init_subclass__' in base.methods:
-                for ci in src.classes.values():
-                    if ci is not base and ci.parent is None and P.is_subclass(ci, base.fq):
-                        auto.append((ci.node.lineno, ci.fq))
-            explicit = [(self._append_line(src, fq), fq) for fq in self.table_list]
-            merged = sorted(auto + explicit)
-            self.table_list = first + [fq for _, fq in merged]
+            # registrars: functions of the module that append (one of) their parameters to TABLES, directly or through another
+            # registrar; registrations: module-level `TABLES.append(X)` / `registrar(X)`, classes decorated with a registrar, and
+            # the subclasses of a class whose __init_subclass__ is a registrar.  Order = order of execution at import (line).
+            registrars = {}
+
+            def appended_param(fi):
+                """name of the parameter a function appends to TABLES, or None"""
+                for n in ast.walk(fi.node):
+                    if isinstance(n, ast.Call) and n.args and isinstance(n.args[0], ast.Name) and n.args[0].id in fi.params:
+                        f = n.func
+                        if isinstance(f, ast.Attribute) and f.attr == 'append' and (src.dotted(f.value) or '').endswith('.TABLES'):
+                            return n.args[0].id
+                        if isinstance(f, ast.Name) and f.id in registrars:
+                            return n.args[0].id
+                return None
+            changed = True
+            while changed:
+                changed = False
+                for fi in src.functions.values():
+                    key = fi.qualname
+                    short = fi.name if fi.parent is None else key
+                    if short in registrars or key in registrars:
+                        continue
+                    pn = appended_param(fi)
+                    if pn is not None:
+                        registrars[short] = fi
+                        registrars[key] = fi
+                        changed = True
+            events = []
+            for st in src.tree.body:
+                if isinstance(st, ast.Expr) and isinstance(st.value, ast.Call) and st.value.args:
+                    f = st.value.func
+                    direct = isinstance(f, ast.Attribute) and f.attr == 'append' and (src.dotted(f.value) or '').endswith('.TABLES')
+                    helper = isinstance(f, ast.Name) and f.id in registrars
+                    if direct or helper:
+                        c = P.resolve_class(src, st.value.args[0])
+                        if isinstance(c, ClassInfo):
+                            events.append((st.lineno, c.fq))
+                if isinstance(st, ast.ClassDef):
+                    ci = self._ci_for_node(src, st)
+                    for d in st.decorator_list:
+                        if isinstance(d, ast.Name) and d.id in registrars:
+                            events.append((st.end_lineno or st.lineno, ci.fq))
+                    for base in P.mro(ci)[1:]:
+                        if isinstance(base, ClassInfo) and f'{base.qualname}.__init_subclass__' in registrars:
+                            events.append((st.lineno, ci.fq))
+                            break
+            ordered = []
+            for _, fq in sorted(events):
+                ordered.append(fq)
+            self.table_list = first + ordered
 
     def _append_line(self, module, fq):
         for st in module.tree.body:
